@@ -77,7 +77,19 @@ class SW:
         if over == "number":
             return Rat.sym(f"{name}{version}", sign), (lambda m, l, _n=name: Rat.sym(f"{_n}{version}", sign))
         FA = self.prog.cls("FlodymArray")
-        if over == "all":
+        plain = None
+        if over.startswith("ndarray-"):
+            # a plain NumPy array (no dimension letters): broadcast by NumPy's rules against (time, *labels); axes of length one
+            # (keepdims style) repeat along that axis
+            full = ["t"] + list(self.labels)
+            plain = {"ndarray-full": full, "ndarray-cohort-column": ["t"], "ndarray-first-label-keepdims": list(self.labels[:1]),
+                     "ndarray-last-label": list(self.labels[-1:])}.get(over)
+            if plain is None:
+                raise AnalysisError(over)
+            first = full.index(plain[0]) if plain else len(full)
+            shape_letters = full[first:]            # leading axes are dropped, the others kept with length one where the parameter does not vary
+            letters = list(plain)
+        elif over == "all":
             letters = ["t"] + list(self.labels)
         elif over == "labels":
             letters = list(self.labels)
@@ -112,7 +124,11 @@ class SW:
         for idx in itertools.product(*[range(s) for s in sizes]):
             key = keyfix({l: i for l, i in zip(letters, idx)})
             data.append(value(key))
-        arr = self.it.construct(FA, [], dict(dims=ds, values=SArr(tuple(sizes), data), name=name))
+        if plain is not None:
+            shp = tuple((self.n_t if l == "t" else LABEL_SIZES[l]) if l in letters else 1 for l in shape_letters)
+            arr = SArr(shp, data)
+        else:
+            arr = self.it.construct(FA, [], dict(dims=ds, values=SArr(tuple(sizes), data), name=name))
 
         def at(m, l, _letters=letters, _n=name):
             key = {}
